@@ -82,7 +82,18 @@ func TestWorker(t *testing.T) {
 			fams := registry[prop]
 			fam := fams[i%len(fams)]
 			r := ExecRun(t, RunSpec{Prop: prop, Fam: fam.Name, Seed: mix64(base, uint64(i))})
-			fmt.Printf("%s %s %d %016x %d %d\n", prop, fam.Name, i, r.Hash, r.Steps, len(r.Viol))
+			fmt.Printf("%s %s %d %016x %d %d", prop, fam.Name, i, r.Hash, r.Steps, len(r.Viol))
+			if os.Getenv("VERIF_SHOWVIOL") != "" {
+				for _, v := range r.Viol {
+					fmt.Printf(" [%s seed=%d: %s]", v.Key(), mix64(base, uint64(i)), v.Detail)
+				}
+				if os.Getenv("VERIF_SHOWVIOL") == "2" {
+					for _, v := range r.Notes {
+						fmt.Printf(" [NOTE %s seed=%d: %s]", v.Key(), mix64(base, uint64(i)), v.Detail)
+					}
+				}
+			}
+			fmt.Println()
 		}
 	}
 }
